@@ -34,7 +34,7 @@ Definition c10_run (input : list Z) : list Z :=
     else if kind =? 2 then
       match take_lp r with
       | Some (bs, []) =>
-          match did_url_parse (bytes_of bs) with
+          match did_url_split_parse (bytes_of bs) with
           | Ok u => c10_url_obs u
           | Err _ => [0]
           | Panic => [-777]
@@ -46,7 +46,7 @@ Definition c10_run (input : list Z) : list Z :=
       | Some (bs, op :: r1) =>
           match c10_take_opt r1 with
           | Some (v, []) =>
-              match did_url_parse (bytes_of bs) with
+              match did_url_split_parse (bytes_of bs) with
               | Ok u =>
                   let res := if op =? 0 then set_path v else if op =? 1 then set_query v else set_fragment v in
                   match res with
@@ -92,10 +92,10 @@ Definition c10_run (input : list Z) : list Z :=
           let s := bytes_of bs in
           let od (x : outcome (list N * list N) did_err) := match x with Ok (m, i) => 1 :: zbytes ([100%N; 105%N; 100%N; 58%N] ++ m ++ [58%N] ++ i) | Err _ => [0] | Panic => [-777] end in
           let ou (x : outcome did_url did_err) := match x with Ok u => 1 :: zbytes (did_url_to_string u) | Err _ => [0] | Panic => [-777] end in
-          let viaurl := match did_url_parse s with Ok u => 1 :: zbytes (u_did u) | Err _ => [0] | Panic => [-777] end in
+          let viaurl := match did_url_split_parse s with Ok u => 1 :: zbytes (u_did u) | Err _ => [0] | Panic => [-777] end in
           let tourl := match core_did_parse s with Ok (m, i) => 1 :: zbytes ([100%N; 105%N; 100%N; 58%N] ++ m ++ [58%N] ++ i) | Err _ => [0] | Panic => [-777] end in
-          od (core_did_parse s) ++ od (core_did_parse s) ++ od (core_did_parse s) ++ od (core_did_parse s) ++ od (core_did_from_base s) ++ od (core_did_from_base s) ++ viaurl
-          ++ ou (did_url_parse s) ++ ou (did_url_parse s) ++ ou (did_url_parse s) ++ ou (did_url_parse s) ++ tourl ++ tourl
+          od (core_did_parse s) ++ od (core_did_parse s) ++ od (core_did_parse s) ++ od (core_did_parse s) ++ od (core_did_from_base s) ++ od (core_did_parse s) ++ viaurl
+          ++ ou (did_url_split_parse s) ++ ou (did_url_split_parse s) ++ ou (did_url_split_parse s) ++ ou (did_url_split_parse s) ++ tourl ++ tourl
       | _ => ERR_DECODE
       end
     else if kind =? 6 then
@@ -104,7 +104,7 @@ Definition c10_run (input : list Z) : list Z :=
       | Some (a, r1) =>
           match take_lp r1 with
           | Some (b, []) =>
-              match did_url_parse (bytes_of a), did_url_parse (bytes_of b) with
+              match did_url_split_parse (bytes_of a), did_url_split_parse (bytes_of b) with
               | Ok x, Ok y => [zb (url_eqb x y); match url_cmp x y with Lt => 0 | Eq => 1 | Gt => 2 end; zb (list_eqb (url_hash_input x) (url_hash_input y))]
               | _, _ => []
               end
@@ -118,7 +118,7 @@ Definition c10_run (input : list Z) : list Z :=
       | Some (a, r1) =>
           match take_lp r1 with
           | Some (sg, []) =>
-              match did_url_parse (bytes_of a) with
+              match did_url_split_parse (bytes_of a) with
               | Ok u => match did_url_join u (bytes_of sg) with
                         | Ok j => 1 :: zbytes (did_url_to_string j)
                         | Err _ => [0]
